@@ -89,6 +89,7 @@ func (m *hashmap) delete(k value) {
 	if e == nil {
 		return
 	}
+	logMapWrite(m)
 	logUndo(func() { m.undelete(e) })
 	e.deleted = true
 	m.length--
@@ -126,6 +127,7 @@ func (m *hashmap) lookup(k value) value {
 }
 
 func (m *hashmap) insert(k value, v value) {
+	logMapWrite(m)
 	if e := m.find(k); e != nil {
 		old := e.value
 		logUndo(func() { e.value = old })
